@@ -972,30 +972,38 @@ func c02LinearCase(ctx *Ctx, shape int) *report.Violation {
 	type reader struct {
 		name string
 		run  func(s []byte) (activity int)
+		lean func(s []byte)
+	}
+	intoEncoder := func(s []byte) int {
+		var e encode.Encoder
+		_ = decode.Decode(&e, s)
+		b, _ := e.Bytes()
+		return len(b)
+	}
+	disassemble := func(s []byte) int {
+		out, _ := decode.Disassemble(s)
+		return len(out)
 	}
 	readers := []reader{
 		{"Decode into a recorder", func(s []byte) int {
 			rd := &world.RecDest{}
 			_ = decode.Decode(rd, s)
 			return len(rd.Calls)
-		}},
+		}, func(s []byte) { _ = decode.Decode(&countDest{}, s) }},
 		{"Decode into a Renderer", func(s []byte) int {
 			rz := &world.RecRaster{NoSnap: true}
 			var rn render.Renderer
 			rn.SetRasterizer(rz, image.Rect(0, 0, 32, 32))
 			_ = decode.Decode(&rn, s)
 			return len(rz.Ops)
+		}, func(s []byte) {
+			rz := &world.RecRaster{NoSnap: true, CountOnly: true}
+			var rn render.Renderer
+			rn.SetRasterizer(rz, image.Rect(0, 0, 32, 32))
+			_ = decode.Decode(&rn, s)
 		}},
-		{"Decode into an Encoder", func(s []byte) int {
-			var e encode.Encoder
-			_ = decode.Decode(&e, s)
-			b, _ := e.Bytes()
-			return len(b)
-		}},
-		{"Disassemble", func(s []byte) int {
-			out, _ := decode.Disassemble(s)
-			return len(out)
-		}},
+		{"Decode into an Encoder", intoEncoder, func(s []byte) { intoEncoder(s) }},
+		{"Disassemble", disassemble, func(s []byte) { disassemble(s) }},
 	}
 	for _, r := range readers {
 		var act1, act4 int
@@ -1042,14 +1050,12 @@ func c02LinearCase(ctx *Ctx, shape int) *report.Violation {
 		// of a cache level, and up to ~8x was seen for readers whose time is
 		// dominated by the harness's own recording buffers on a loaded machine),
 		// quadratic work 16x.
-		tn := 192 << 10
-		if ctx.Tier == "thorough" {
-			tn = 320 << 10
-		}
+		tn := 192 << 10 // both tiers: the heap of one read stays far below the watchdog's limit
 		ts, tm, tb := longStream(shape, tn), longStream(shape, 2*tn), longStream(shape, 4*tn)
 		var t1, t2, t4 time.Duration
+		lean := r.lean // the same reader without the harness's recording buffers (memory, and time that is not the reader's)
 		measure := func() {
-			t1, t2, t4 = bestCPUTime(ctx, func() { r.run(ts) }), bestCPUTime(ctx, func() { r.run(tm) }), bestCPUTime(ctx, func() { r.run(tb) })
+			t1, t2, t4 = bestCPUTime(ctx, func() { lean(ts) }), bestCPUTime(ctx, func() { lean(tm) }), bestCPUTime(ctx, func() { lean(tb) })
 		}
 		// three sizes, so that a one-time step (the larger input falling out of
 		// a cache level) is not mistaken for growth: BOTH doublings must cost
